@@ -142,6 +142,19 @@ def run(ctx):
                 docs[1] = docs[0]
                 docs[5] = docs[4]
             xml_lines.append([t] + [json.dumps({"a": d, "b": rng.choice(jdocs), "c": rng.randint(0, 3)}) for d in docs])
+    # the same member name in different spellings from one record to the next (HTTP/1 records carry Content-Type, HTTP/2
+    # records content-type; ETag, DNT, X-Request-ID are neither canonical nor lower case): a lookup that misses on one
+    # record must not change what the prepared query looks for on the next
+    hnames = ["ETag", "DNT", "X-Request-ID", "WWW-Authenticate", "Content-Type", "content-type", "x-b3-traceid"]
+    for hn in hnames:
+        key = hn if hn.replace("_", "").isalnum() else None
+        sel = ("a.headers.%s" % hn) if key else ('a.headers["%s"]' % hn)
+        for t in ('%s == "v"' % sel, '(%s == "v") and redact("a.headers")' % sel, '%s.startsWith("v") or b' % sel):
+            recs = []
+            for _ in range(8):
+                sp = rng.choice([hn, hn.lower(), hn.upper(), "-".join(w.capitalize() for w in hn.split("-")), None, None])
+                recs.append(json.dumps({"a": {"headers": ({sp: "v"} if sp else {"other": "v"})}, "b": rng.random() < 0.5}))
+            xml_lines.append([t] + recs)
     ill = kfl.illtyped_queries(rng, "quick")
     for t in rng.sample(ill, 30 if quick else 600):
         chosen.append((t, [], [[('k', 'a')]]))
